@@ -74,10 +74,12 @@ def reduceWithHint (q : Q) (hint : Nat) : Except PanicKind Q :=
     let g ← gcdK g1 q.den
     pure ⟨Int.tdiv q.num g, q.den / g⟩
 
-/-- `Repr::reduce2`; `self.denominator.trailing_zeros().unwrap()` panics on a zero denominator -/
+/-- `Repr::reduce2`; `self.denominator.trailing_zeros().unwrap()` panics on a zero denominator (not reachable through
+    the public API: every constructor and operator hands `reduce2` a non-zero denominator; the panic value names the
+    file only, the line is not part of the model) -/
 def reduce2 (q : Q) : Except PanicKind Q :=
   if q.num = 0 then .ok Q.zero
-  else if q.den = 0 then .error (.undocumented "rational/src/repr.rs:44|unwrap_on_None")
+  else if q.den = 0 then .error (.undocumented "rational/src/repr.rs|unwrap_on_None")
   else
     let zeros := min (tz q.num.natAbs) (tz q.den)
     if zeros > 0 then .ok ⟨q.num >>> zeros, q.den >>> zeros⟩ else .ok q
